@@ -237,7 +237,12 @@ static void hilbert_gen_case(int n, uint64_t s) {
     arr_real x(n);
     for (int m = 0; m < n; ++m) x[m] = gen_re(m, s);
     vh::set_current("C14:hilbert-crash", "{\"op\":\"hilbert\",\"n\":" + std::to_string(n) + ",\"generated_seed\":" + std::to_string(s) + "}");
-    const arr_cmplx y = hilbert(x);
+    arr_cmplx y;
+    try { y = hilbert(x); } catch (const std::exception& e) {
+        out.fail("C14:hilbert-throws", "{\"op\":\"hilbert\",\"n\":" + std::to_string(n) + ",\"generated_seed\":" + std::to_string(s) + "}");
+        vh::clear_current();
+        return;
+    }
     vh::clear_current();
     out.corr("hilbg " + std::to_string(n) + " " + std::to_string(s), digest(y));
 }
@@ -329,7 +334,7 @@ static void run_hilbert(bool thorough, vh::Rng& rng) {
         out.stat("hilbert_below_domain_cases", 2);
     }
     // hilbert(x, n')
-    const int npairs = thorough ? 1500 : 160;
+    const int npairs = thorough ? 3000 : 200;
     for (int j = 0; j < npairs; ++j) {
         int nx, np;
         if (j < 60) { nx = 3 + j % 10; np = 3 + (j / 10) * 2 + (j % 2); }          // small exhaustive-ish grid, both directions
@@ -339,7 +344,7 @@ static void run_hilbert(bool thorough, vh::Rng& rng) {
             np = mode == 0 ? nx : mode == 1 ? rng.range(3, nx) : mode == 2 ? rng.range(nx, std::min(4096, 2 * nx + 3)) : rng.range(3, 4096);
         }
         const uint64_t cs = g_seed * 7000003ULL + j;
-        hilbert_n_case(nx, np, j % NHK, cs, j < 60 ? (j % 3 == 0) : (std::max(nx, np) <= 300 && j % 4 == 1));
+        hilbert_n_case(nx, np, j % NHK, cs, j < 60 ? (j % 3 == 0) : (std::max(nx, np) <= 300 && (j % 4 == 1 || j % 8 == 2 || j % 8 == 4)));
     }
 }
 
@@ -575,11 +580,11 @@ static void run_hf(bool thorough, vh::Rng& rng) {
         for (int ti = 0; ti < 9; ++ti) {
             if (!thorough && (ti + idx) % 3 != 0 && ti != 0 && ti != 8) continue;
             const bool small = flen <= 65;
-            hf_filter(flen, tws[ti], thorough ? 8 : 6, thorough ? 160 : 96, (idx % (thorough ? 12 : 3) == 0) && (ti % 4 == idx % 4 || ti == 0),
+            hf_filter(flen, tws[ti], thorough ? 10 : 6, thorough ? 240 : 96, (idx % (thorough ? 12 : 3) == 0) && (ti % 4 == idx % 4 || ti == 0),
                       small && (ti == (idx % 9)), rng);
         }
         // a random transition width in [0.005, 0.1]
-        hf_filter(flen, 0.005 + 0.095 * rng.unit(), thorough ? 6 : 4, thorough ? 160 : 96, flen % 50 == 1, false, rng);
+        hf_filter(flen, 0.005 + 0.095 * rng.unit(), thorough ? 8 : 4, thorough ? 240 : 96, flen % 50 == 1, false, rng);
         ++idx;
     }
     // the constructor from taps: accepts type-3 taps only (CORR: the model reproduces the rejection)
@@ -725,7 +730,7 @@ static void tuner_case(int fs, double f, int total, int fmode, int corr_mode, vh
 
 static void run_tuner(bool thorough, vh::Rng& rng) {
     std::vector<int> rates = {8, 9, 10, 11, 16, 25, 64, 100, 1000, 8000, 44100, 99999, 100000};
-    const int nrand = thorough ? 40 : 6;
+    const int nrand = thorough ? 110 : 12;
     for (int j = 0; j < nrand; ++j) rates.push_back(j % 3 == 0 ? rng.range(8, 200) : j % 3 == 1 ? rng.range(201, 20000) : rng.range(20001, 100000));
     long long big_budget = thorough ? 60 : 10;   // number of long CORR cases
     int idx = 0;
